@@ -1,27 +1,35 @@
 ---- MODULE MC_ClientMux ----
+(* Constants for the exhaustive runs of ClientMux (MaxId = 4: id space -5..4, so that the wrap at MaxId, the int32  *)
+(* overflow to MinId and the skipping of 0 are all reached by three calls).                                          *)
+(*   MC_ids / MC_ids_t        3 callers, no peer, every interleaving, start values {3, -2} / all ten                   *)
+(*   MC_mux2 / MC_mux2_t      2 callers, every interleaving of callers, sender, peer, receivers; 2 / 4 peer packets     *)
+(*   MC_mux3 / MC_mux3_t      3 callers, local steps run to completion (LocalAll); 1 / 3 peer packets                   *)
+(*   MC_residue / _t          every exit path (queue full, refused, black hole, connection loss) : accounting          *)
+(*   MC_c09_ideal / _t        discrete clock, deadlines 1 and 3, dial bound 2, SerialDial = FALSE : DeadlineInv        *)
+(*   MC_c09_kf_serialdial     the same with SerialDial = TRUE (finding F21): DeadlineInv must be violated               *)
+(*   MC_transport_polite / MC_transport_kf   connection.invokeNum returns to 0 iff every request is answered once      *)
 EXTENDS ClientMux
 C2 == {1, 2}
 C3 == {1, 2, 3}
 AllIds == MinId..MaxId
 NearWrap == {MaxId - 2, MaxId - 1, MaxId}
-NearZero == {-3, -2, -1}
-WrapAndZero == NearWrap \cup NearZero
 TwoStarts == {MaxId - 1, -2}
 TO3 == [c \in C3 |-> IF c = 2 THEN 2 ELSE 1]
 TO2 == [c \in C2 |-> c]
 TO3b == [c \in C3 |-> IF c = 2 THEN 3 ELSE 1]
-TO2b == [c \in C2 |-> IF c = 2 THEN 3 ELSE 1]
 AllModes == {"accept", "refuse", "blackhole"}
-\* a peer that answers every request it received exactly once and sends nothing else
-Polite == /\ \A q \in DOMAIN pkt : pkt[q].id \in DOMAIN seen
-          /\ \A q, r \in DOMAIN pkt : q # r => pkt[q].id # pkt[r].id
+\* what the peer may send besides ids it received: a foreign id, id 0 (push), an undecodable packet, an id not yet drawn
 F1 == {-5}
 F0 == {0}
 FAll == {-5, 0, GARB}
 FPre == {4, 0}
+\* labels whose step commutes with every step of the other processes (Transient)
 Local == {"cas", "add", "pre", "sel", "reg1", "unreg1", "post"}
-LocalAll == Local \cup {"spawned", "sendq"}
 LocalRx == {"spawned", "sendq"}
+LocalAll == Local \cup LocalRx
+\* a peer that answers every request it received exactly once and sends nothing else ...
+Polite == /\ \A q \in DOMAIN pkt : pkt[q].id \in DOMAIN seen
+          /\ \A q, r \in DOMAIN pkt : q # r => pkt[q].id # pkt[r].id
 \* ... then connection.invokeNum is back to 0 once every request has been answered and received
 PoliteDone == Polite /\ wire = {} /\ \A i \in DOMAIN seen : \E q \in DOMAIN pkt : pkt[q].id = i
 TransportBackPolite == (Quiet /\ sendQ = {} /\ PoliteDone /\ \A q \in DOMAIN rst : rst[q] # "net") => tInvoke = 0
